@@ -195,6 +195,10 @@ Mut1(b) ==
   \cup UNION {{SetAt(b, i, v) : v \in Vals(b[i])} : i \in 1..Len(b)}
   \cup {DelAt(b, i) : i \in 1..Len(b)}
   \cup {InsAt(b, i, v) : i \in 1..(Len(b) + 1), v \in {0, 1, 255}}
+  \* the frame made one byte longer / shorter consistently (Remaining Length adjusted): inner lengths
+  \* then contradict the frame length
+  \cup (IF Len(b) >= 2 /\ b[2] < 127 THEN {<<b[1], b[2] + 1>> \o SubSeq(b, 3, Len(b)) \o <<v>> : v \in {0, 1, 255}} ELSE {})
+  \cup (IF Len(b) >= 3 /\ b[2] < 128 /\ b[2] > 0 THEN {<<b[1], b[2] - 1>> \o SubSeq(b, 3, Len(b) - 1)} ELSE {})
 \* (TLC's UNION is quadratic in the number of elements: the parts below are printed with nested
 \* quantifiers instead of being collected into one set first)
 MutBases(ver) == {Full(ver, p) : p \in IF ver = 5 THEN MutBase5 ELSE MutBase3}
